@@ -436,7 +436,7 @@ func ruleC03Meta(c *Checker) {
 		if !ok || !isNext(cv.X) {
 			return
 		}
-		if _, isC := bo.X.(*ssa.Const); isC {
+		if _, isEsc := escPrefix(bo.X); isEsc {
 			return
 		}
 		raw = append(raw, bo)
@@ -453,7 +453,7 @@ func ruleC03Meta(c *Checker) {
 		if !ok || !isNext(cv.X) {
 			return
 		}
-		k, isC := constString(bo.X)
+		k, isC := escPrefix(bo.X)
 		if !isC {
 			return
 		}
@@ -487,6 +487,20 @@ func ruleC03Meta(c *Checker) {
 			c.check(reachRaw, R, name, construct, p.Pos(comp.Pos()), "appended raw", "an ordinary / character-class rune no longer reaches the raw append")
 		}
 	}
+}
+
+// escPrefix: the constant that stands directly in front of what is appended to v: v is that constant, or
+// v is `acc + constant` (the backslash appended in a statement of its own, the rune in the next).
+func escPrefix(v ssa.Value) (string, bool) {
+	if k, ok := constString(v); ok {
+		return k, true
+	}
+	if bo, ok := v.(*ssa.BinOp); ok && bo.Op == token.ADD {
+		if k, ok := constString(bo.Y); ok && k != "" {
+			return k[len(k)-1:], true
+		}
+	}
+	return "", false
 }
 
 // C03.glob: what the translator emits for the glob operators, decided on the
